@@ -134,10 +134,32 @@ func verifH_C02_adopt() {
 	verifReach("adopted")
 
 	// second generation: one more publish while offline, then stop and adopt again
-	gen2 := verifChoose("gen2", 3)
+	gen2 := verifChoose("gen2", 4)
 	if gen2 == 0 {
 		verifDrainClient(c, ps.store, ps.q1, ps.q2, "C02(adopt)")
 		verifReach("drained")
+		return
+	}
+	if gen2 == 3 {
+		// second generation: the broker's PUBREC for the first pending exactly-once PUBLISH, then a stop
+		if wp == 0 {
+			return
+		}
+		conn := &verifConn{}
+		verifGoOnline(c, conn)
+		id := ps.q2[wr].id
+		c.peek = []byte{byte(id >> 8), byte(id)}
+		err := c.onPUBREC()
+		verifAssert(err == nil, "C02: in-order PUBREC refused on the adopted client")
+		ps.q2[wr].release = true
+		ps.q2[wr].packet = verifRelPacket(id)
+		cfg2 := verifAdoptConfig()
+		c2, warn2, fatal2 := AdoptSession(ps.store, cfg2)
+		verifAssert(fatal2 == nil, "C02: second AdoptSession fails")
+		verifAssert(len(warn2) == 0, "C02: second AdoptSession drops records (storage order of a PUBREL saved after a restart)")
+		verifObserveClient(c2, ps.store, ps.q1, ps.q2, "C02(second adopt after PUBREC)")
+		verifDrainClient(c2, ps.store, ps.q1, ps.q2, "C02(second adopt after PUBREC)")
+		verifReach("adopted-twice-pubrec")
 		return
 	}
 	msg := verifBytes("new", 1)
